@@ -487,7 +487,8 @@ Step(p, S) ==
 RECURSIVE RunToEnd(_, _)
 RunToEnd(p, S) == IF Done(S) THEN S ELSE RunToEnd(p, Step(p, S))
 \* the observable outcome: the error, or the resolution state of a successful run
-BRes(S) == IF S.err # "" THEN [err |-> S.err, ty |-> <<>>, ex |-> <<>>, sref |-> <<>>, used |-> {}]
+\* (which of several errors is reported first may depend on the order; that the program is rejected may not)
+BRes(S) == IF S.err # "" THEN [err |-> "rejected", ty |-> <<>>, ex |-> <<>>, sref |-> <<>>, used |-> {}]
            ELSE [err |-> S.err, ty |-> S.ty, ex |-> S.ex, sref |-> S.sref, used |-> S.used]
 
 -----------------------------------------------------------------------------
